@@ -3,5 +3,5 @@ def run(ctx):
     pdo_check.run(ctx, ["C13"])
     # the PDO / SYNC services next to every other service and timer of the node (product model CoFull)
     import full_check
-    full_check.run(ctx, 400 if ctx.tier == "quick" else 20000)
+    full_check.run(ctx, 400 if ctx.tier == "quick" else 6000)
 VARIANTS = {"default": (), "r4t2": ("CO_RPDO_N=4", "CO_TPDO_N=2"), "r2t4": ("CO_RPDO_N=2", "CO_TPDO_N=4")}
